@@ -23,30 +23,44 @@ abbrev Params := Amgcl.Solver.Params
 
 variable {K : Type} [Add K] [Mul K] [Sub K] [Neg K] [Zero K] [One K] [Div K] [DecidableEq K] [LT K] [DecidableLT K]
 
-/-- one pass through the loop body, cg.hpp:181-199.  `iter` is the loop counter *before* `++iter`.
-Returns the new `(rho1, res_norm, x, work)`. -/
-def body (ip : Vec K → Vec K → K) (sqrt : K → K) (A : CRS K) (P : Vec K → Vec K)
-    (iter : Nat) (rho1 : K) (x : Vec K) (w : Work K) : K × K × Vec K × Work K :=
+/-- the local variables that live across loop iterations (`rho2`, `alpha` are per-iteration temporaries),
+the caller's `x` and the work vectors -/
+structure St (K : Type) where
+  iter : Nat
+  rho1 : K
+  res  : K
+  x    : Vec K
+  w    : Work K
+
+/-- one pass through the loop body, cg.hpp:181-199, including the `++iter` -/
+def body (ip : Vec K → Vec K → K) (sqrt : K → K) (A : CRS K) (P : Vec K → Vec K) (st : St K) : St K :=
+  let w := st.w
   let s := P w.r                                        -- P.apply(*r, *s);
-  let rho2 := rho1                                      -- rho2 = rho1;
+  let rho2 := st.rho1                                   -- rho2 = rho1;
   let rho1 := ip w.r s                                  -- rho1 = inner_product(*r, *s);
-  let p := if iter ≠ 0 then axpby 1 s (rho1 / rho2) w.p -- if (iter) axpby(one, *s, rho1 / rho2, *p);
+  let p := if st.iter ≠ 0 then axpby 1 s (rho1 / rho2) w.p  -- if (iter) axpby(one, *s, rho1 / rho2, *p);
            else vcopy s                                 -- else copy(*s, *p);
   let q := spmv 1 A p 0 w.q                             -- spmv(one, A, *p, zero, *q);
   let alpha := rho1 / ip q p                            -- alpha = rho1 / inner_product(*q, *p);
-  let x := axpby alpha p 1 x                            -- axpby( alpha, *p, one,  x);
+  let x := axpby alpha p 1 st.x                         -- axpby( alpha, *p, one,  x);
   let r := axpby (-alpha) q 1 w.r                       -- axpby(-alpha, *q, one, *r);
-  (rho1, nrm ip sqrt r, x, ⟨r, s, p, q⟩)               -- res_norm = norm(*r);
+  { iter := st.iter + 1, rho1 := rho1, res := nrm ip sqrt r,   -- res_norm = norm(*r);
+    x := x, w := ⟨r, s, p, q⟩ }
+
+/-- the second conjunct of the loop guard: `math::norm(res_norm) > eps` -/
+def cond (epsT : K) (st : St K) : Bool := decide (epsT < absK st.res)
 
 /-- `for(; iter < prm.maxiter && math::norm(res_norm) > eps; ++iter) body` with `fuel = maxiter - iter` -/
 def loop (ip : Vec K → Vec K → K) (sqrt : K → K) (A : CRS K) (P : Vec K → Vec K) (epsT : K) :
-    Nat → Nat → K → K → Vec K → Work K → Nat × K × Vec K × Work K
-  | 0, iter, _, res, x, w => (iter, res, x, w)
-  | fuel + 1, iter, rho1, res, x, w =>
-    if epsT < absK res then
-      let (rho1', res', x', w') := body ip sqrt A P iter rho1 x w
-      loop ip sqrt A P epsT fuel (iter + 1) rho1' res' x' w'
-    else (iter, res, x, w)
+    Nat → St K → St K :=
+  loopN (cond epsT) (body ip sqrt A P)
+
+/-- the state on loop entry, cg.hpp:170-178 -/
+def init (ip : Vec K → Vec K → K) (sqrt : K → K) (A : CRS K) (ws : Work K) (f x0 : Vec K) (epsT : K) : St K :=
+  let rho1 : K := two * epsT * 1                          -- rho1 = 2 * eps * one;  (rho2 = zero is dead)
+  let r := residual f A x0                                -- residual(rhs, A, x, *r);
+  { iter := 0, rho1 := rho1, res := nrm ip sqrt r,        -- res_norm = norm(*r);
+    x := x0, w := { ws with r := r } }
 
 def run (prm : Params K) (ip : Vec K → Vec K → K) (sqrt : K → K) (eps : K) (A : CRS K) (P : Vec K → Vec K)
     (ws : Work K) (f x0 : Vec K) : Run K (Work K) :=
@@ -54,11 +68,8 @@ def run (prm : Params K) (ip : Vec K → Vec K → K) (sqrt : K → K) (eps : K)
   | .trivial n => (.ok (0, n), vclear x0.size, ws)       -- clear(x); return (0, norm_rhs);
   | .go normRhs =>
     let epsT := maxK (prm.tol * normRhs) prm.abstol       -- eps = std::max(prm.tol * norm_rhs, prm.abstol);
-    let rho1 : K := two * epsT * 1                        -- rho1 = 2 * eps * one;  (rho2 = zero is dead)
-    let r := residual f A x0                              -- residual(rhs, A, x, *r);
-    let res := nrm ip sqrt r                              -- res_norm = norm(*r);
-    let (iter, res, x, w) := loop ip sqrt A P epsT prm.maxiter 0 rho1 res x0 { ws with r := r }
-    (.ok (iter, res / normRhs), x, w)                     -- return (iter, res_norm / norm_rhs);
+    let st := loop ip sqrt A P epsT prm.maxiter (init ip sqrt A ws f x0 epsT)
+    (.ok (st.iter, st.res / normRhs), st.x, st.w)         -- return (iter, res_norm / norm_rhs);
 
 def solve (prm : Params K) (ip : Vec K → Vec K → K) (sqrt : K → K) (eps : K) (A : CRS K) (P : Vec K → Vec K)
     (ws : Work K) (f x0 : Vec K) : Except Err (Nat × K × Vec K × Work K) :=
